@@ -30,6 +30,10 @@ def _work(task):
     out = {'items': [], 'undecided': [], 'paths': 0, 'errors': [], 'frontier': [], 'case': task[1]}
     try:
         props_mod = importlib.import_module('props.%s' % props_name) if props_name else None
+        if props_mod is not None and hasattr(props_mod, 'worker_setup') and not _W.get(('setup', props_name)):
+            # contracts a property registers at build time (not at module load) must exist in the worker too
+            props_mod.worker_setup(E)
+            _W[('setup', props_name)] = True
         res = E.verify(target, only_case=case_idx, initial_worklist=trails, ground=ground, budget_paths=24,
                        keep_frontier=True, bfs=True)
         out['paths'] = res.paths
